@@ -604,7 +604,7 @@ def afterType (d : Dec) (t : ChunkType) (length : Nat) : Except Err (St × Dec) 
   if t = fdAT then
     if !d.readyFdat then .error (.format "UnexpectedRestartOfDataChunkSequence fdAT")
     else if length < 4 then .error (.format "FdatShorterThanFourBytes")
-    else .ok (.u32 .seqNo [], d)
+    else .ok (.u32 .seqNo [], { d with haveIdat := true })      -- image data has begun (stream.rs:868)
   else if t = IDAT then
     if !d.readyIdat then .error (.format "UnexpectedRestartOfDataChunkSequence IDAT")
     else .ok (.imageData t, { d with haveIdat := true })
